@@ -22,7 +22,7 @@ type Decision struct {
 type Violation struct {
 	Kind   string   `json:"kind"` // "assert" | "panic" | "unwind" | "deadlock"
 	Msg    string   `json:"msg"`
-	Vector []uint64 `json:"vector"` // ND draws in order, from the solver's model
+	Vector []uint64 `json:"vector"`        // ND draws in order, from the solver's model
 	Aux    []uint64 `json:"aux,omitempty"` // auxiliary draws (clock instants, opaque results) in order
 	Names  []string `json:"names,omitempty"`
 	Class  string   `json:"class,omitempty"` // harness-provided classification (Note("class", ...))
@@ -31,34 +31,34 @@ type Violation struct {
 }
 
 type JobResult struct {
-	ID           int            `json:"id"`
-	Harness      string         `json:"harness"`
-	Params       []int          `json:"params"`
-	Paths        int            `json:"paths"`
-	Nontrivial   int            `json:"nontrivial"`
-	Ends         map[string]int `json:"ends"`
-	Asserts      int            `json:"asserts"`      // assertion obligations reached (path × assert)
-	Discharged   int            `json:"discharged"`   // decided unsat (or trivially true)
-	Trivial      int            `json:"trivial"`      // folded to true without the solver
-	Inconclusive int            `json:"inconclusive"` // solver unknown / error
-	Reached      map[string]int `json:"reached"`
-	Violations   []Violation    `json:"violations"`
-	Queries      int            `json:"queries"`
-	ModelHits    int            `json:"model_hits"`
-	SolverS      float64        `json:"solver_s"`
-	MaxQueryS    float64        `json:"max_query_s"`
-	WallS        float64        `json:"wall_s"`
-	Steps        int            `json:"steps"`
-	NVars        int            `json:"nvars"`
-	Funcs        []string       `json:"funcs,omitempty"`
-	EngineErr    string         `json:"engine_err,omitempty"`
-	Truncated    bool           `json:"truncated,omitempty"`
-	Observed     []observation  `json:"observed,omitempty"`
-	CrossChecked int            `json:"cross_checked"`
-	CrossDisagree int           `json:"cross_disagree"`
-	Sample       string         `json:"sample,omitempty"`
-	Stubs        []string       `json:"stubs,omitempty"`
-	Candidates   []raceCand     `json:"candidates,omitempty"`
+	ID            int            `json:"id"`
+	Harness       string         `json:"harness"`
+	Params        []int          `json:"params"`
+	Paths         int            `json:"paths"`
+	Nontrivial    int            `json:"nontrivial"`
+	Ends          map[string]int `json:"ends"`
+	Asserts       int            `json:"asserts"`      // assertion obligations reached (path × assert)
+	Discharged    int            `json:"discharged"`   // decided unsat (or trivially true)
+	Trivial       int            `json:"trivial"`      // folded to true without the solver
+	Inconclusive  int            `json:"inconclusive"` // solver unknown / error
+	Reached       map[string]int `json:"reached"`
+	Violations    []Violation    `json:"violations"`
+	Queries       int            `json:"queries"`
+	ModelHits     int            `json:"model_hits"`
+	SolverS       float64        `json:"solver_s"`
+	MaxQueryS     float64        `json:"max_query_s"`
+	WallS         float64        `json:"wall_s"`
+	Steps         int            `json:"steps"`
+	NVars         int            `json:"nvars"`
+	Funcs         []string       `json:"funcs,omitempty"`
+	EngineErr     string         `json:"engine_err,omitempty"`
+	Truncated     bool           `json:"truncated,omitempty"`
+	Observed      []observation  `json:"observed,omitempty"`
+	CrossChecked  int            `json:"cross_checked"`
+	CrossDisagree int            `json:"cross_disagree"`
+	Sample        string         `json:"sample,omitempty"`
+	Stubs         []string       `json:"stubs,omitempty"`
+	Candidates    []raceCand     `json:"candidates,omitempty"`
 }
 
 type observation struct {
@@ -77,27 +77,27 @@ type Explorer struct {
 	aux    []*Term // auxiliary variables (clock instants, opaque results): not part of the vector
 	nAux   int
 
-	pool      []Model // recent models (from any path)
-	live      []bool
-	memos     []map[*Term]uint64
-	res       *JobResult
-	params    []int
-	concVec   []uint64 // concrete mode: ND draws come from here
-	concAux   []uint64
-	concolic  Model // selftest: decisions are taken by evaluating under this model
-	concMode  bool
-	notes     []string
-	class     string
-	funcsSeen map[*ssa.Function]bool
-	stubs     map[string]bool
+	pool       []Model // recent models (from any path)
+	live       []bool
+	memos      []map[*Term]uint64
+	res        *JobResult
+	params     []int
+	concVec    []uint64 // concrete mode: ND draws come from here
+	concAux    []uint64
+	concolic   Model // selftest: decisions are taken by evaluating under this model
+	concMode   bool
+	notes      []string
+	class      string
+	funcsSeen  map[*ssa.Function]bool
+	stubs      map[string]bool
 	crossEvery int
-	pathNo    int
-	maxViol   int
-	known     []string // known-finding classes to exclude (assumed away)
-	opaqueLen int
-	pcSet     map[*Term]bool
-	bounds    map[*Term]ival
-	rangeMemo map[*Term]rmemo
+	pathNo     int
+	maxViol    int
+	known      []string // known-finding classes to exclude (assumed away)
+	opaqueLen  int
+	pcSet      map[*Term]bool
+	bounds     map[*Term]ival
+	rangeMemo  map[*Term]rmemo
 }
 
 const poolSize = 6
